@@ -26,8 +26,7 @@ from harness.common import NCPU, MachineryError, pmap
 SHAPE = {"Config_config_tbl": ("Config", "config_tbl"), "FooBar_foo_bar": ("FooBar", "foo_bar"), "node_node": ("node", "node"),
          "Other_other_tbl": ("Other", "other_tbl"), "Xy_xy": ("Xy", "xy")}
 CLAUSE_FINDING = {"Serialisable": "openapi_inferred_pk_not_serialisable", "Closed": "openapi_key_titlecase",
-                  "OpsExact": "openapi_bulk_later_models_missing", "BodiesDefined": "openapi_bulk_later_models_missing",
-                  "PathParamsDeclared": "openapi_bulk_later_models_missing"}
+                  }
 
 
 def collect_refs(x, out):
@@ -136,14 +135,41 @@ def run_case(args):
             return res
         res["fails"] = judge_document(doc, names, case["crud"], case["prefix"], pk_names)
         res["doc"] = json.dumps(doc, default=lambda o: "<<{}>>".format(type(o).__name__))[:1500]
-        # RoutesDescribeModel: every route of every model is in the routes file and names that model
+        # RoutesDescribeModel: the generated routes, fed back through the real route parser, describe that same model:
+        # one route per requested operation and model, on the right path, whose $refs name that model (or ServerError)
+        import ast as _ast
+        import cdd.routes.parse.bottle as rb
         with open(rp) as f:
-            rtext = f.read()
+            rtree = _ast.parse(f.read())
+        seen_routes = {}
+        for fn in rtree.body:
+            if not isinstance(fn, _ast.FunctionDef):
+                continue
+            deco = next((dd for dd in fn.decorator_list if isinstance(dd, _ast.Call) and isinstance(dd.func, _ast.Attribute)
+                         and dd.func.attr in ("post", "get", "delete")), None)
+            if deco is None:
+                continue
+            try:
+                with contextlib.redirect_stdout(io.StringIO()), contextlib.redirect_stderr(io.StringIO()):
+                    parsed = rb.bottle(copy.deepcopy(fn))
+            except Exception as e:  # noqa
+                res["fails"].append(("RoutesDescribeModel", "the route parser raises on generated route {}: {}".format(fn.name, type(e).__name__)))
+                continue
+            refs = []
+            collect_refs(parsed, refs)
+            path = deco.args[0].value if deco.args and isinstance(deco.args[0], _ast.Constant) else "?"
+            seen_routes.setdefault((deco.func.attr, path.split("/:")[0]), []).append(sorted(set(r_.rsplit("/", 1)[1] for r_ in refs)))
         for name in names:
-            n_routes = len(re.findall(r"@rest_api\.(post|get|delete)\('{}/{}".format(re.escape(case["prefix"]), name.lower()), rtext))
-            if n_routes != len(case["crud"]):
-                res["fails"].append(("RoutesDescribeModel", "routes.py holds {} routes for {} but {} were requested".format(
-                    n_routes, name, len(case["crud"]))))
+            coll = "{}/{}".format(case["prefix"], name.lower())
+            for letter, method in (("C", "post"), ("R", "get"), ("D", "delete")):
+                got = seen_routes.get((method, coll), [])
+                if (letter in case["crud"]) != (len(got) == 1):
+                    res["fails"].append(("RoutesDescribeModel", "routes.py holds {} {} route(s) for {} but crud={}".format(
+                        len(got), method, coll, case["crud"])))
+                for refs in got:
+                    foreign = [r_ for r_ in refs if r_ not in (name, name + "Body", "ServerError")]
+                    if foreign:
+                        res["fails"].append(("RoutesDescribeModel", "the {} route of {} refers to {}".format(method, name, foreign)))
         return res
     finally:
         shutil.rmtree(d, ignore_errors=True)
